@@ -201,7 +201,8 @@ ObsStuck(e) ==
 \* the driver made every parked operation completable, polled until its own
 \* ledger was empty or a generous budget expired, and waited out due timers
 ObsEnd(e) ==
-  IF InFlight # {} THEN
+  IF cls = "signal" /\ InFlight # {} /\ "C03" \in Focus THEN Fail("C03/event-lost-after-signal")
+  ELSE IF InFlight # {} THEN
      LET id == CHOOSE id \in InFlight : TRUE IN Fail("C01/never-completed/" \o Kind(ops[id].o))
   ELSE IF \E t \in DOMAIN tm : tm[t].st = "once" THEN Fail("C04/not-fired")
   ELSE IF posted # {} THEN Fail("C05/not-run")
@@ -232,6 +233,8 @@ Obs(e) ==
     [] e.ev = "PostE"    -> ObsPostE(e)
     [] e.ev = "PostRunB" -> ObsPostRunB(e)
     [] e.ev = "PostRunE" -> Skip
+    [] e.ev = "WaitB"    -> Skip
+    [] e.ev = "WaitE"    -> (IF e.err \notin {"nil", "timeout"} THEN Fail("C03/eintr-surfaced") ELSE Skip)
     [] e.ev = "RunPendB" -> Skip
     [] e.ev = "RunPendE" -> ObsRunPendE(e)
     [] e.ev = "Stuck"    -> ObsStuck(e)
